@@ -243,6 +243,9 @@ class Program:
             for t in st.targets:
                 if isinstance(t, ast.Name):
                     mi.assigns.setdefault(t.id, []).append(st.value)
+                elif isinstance(t, ast.Attribute) and isinstance(t.value, ast.Name) and t.value.id in mi.classes:
+                    # module-level  Class.attr = expr  after the class statement: a class attribute bound at import time
+                    mi.classes[t.value.id].class_attrs[t.attr] = st.value
         elif isinstance(st, ast.AnnAssign):
             if isinstance(st.target, ast.Name) and st.value is not None:
                 mi.assigns.setdefault(st.target.id, []).append(st.value)
@@ -458,32 +461,51 @@ class Program:
                 r = self.resolve_expr(init.module, val) if isinstance(val, (ast.Name, ast.Attribute)) else None
                 if r and r[0] == "class":
                     class_attrs[tgt.attr] = r[1]
+        def class_of_attr(attr: str) -> Optional[ClassInfo]:
+            """self.<attr> / cls.<attr> as a class: bound in __init__, or a class attribute found through the MRO."""
+            if attr in class_attrs:
+                return class_attrs[attr]
+            ca = model.lookup_class_attr(attr)
+            if ca is not None and isinstance(ca[1], (ast.Name, ast.Attribute)):
+                r = self.resolve_expr(ca[0].module, ca[1])
+                if r and r[0] == "class":
+                    return r[1]
+            return None
+
+        def constructed(fi: FuncInfo) -> List[Tuple[ClassInfo, str]]:
+            out = []
+            for n in ast.walk(fi.node):
+                if isinstance(n, ast.Call):
+                    f = n.func
+                    if isinstance(f, ast.Attribute) and isinstance(f.value, ast.Name) and f.value.id in ("self", "cls"):
+                        c = class_of_attr(f.attr)
+                        if c is not None:
+                            out.append((c, f.attr))
+                    elif isinstance(f, (ast.Name, ast.Attribute)):
+                        r = self.resolve_expr(fi.module, f)
+                        if r and r[0] == "class":
+                            out.append((r[1], ""))
+            return out
+
         # the class `rating` constructs
         rating_cls = None
         rating_attr = ""
-        for n in ast.walk(rating_m.node):
-            if isinstance(n, ast.Call):
-                f = n.func
-                if isinstance(f, ast.Attribute) and isinstance(f.value, ast.Name) and f.value.id == "self":
-                    if f.attr in class_attrs:
-                        rating_cls, rating_attr = class_attrs[f.attr], f.attr
-                elif isinstance(f, (ast.Name, ast.Attribute)):
-                    r = self.resolve_expr(rating_m.module, f)
-                    if r and r[0] == "class":
-                        rating_cls = r[1]
-        if rating_cls is None:
-            raise AnalysisError(f"vanished anchor: cannot discover the Rating role of {model.fq}")
+        for c, attr in constructed(rating_m):
+            rating_cls = c
+            if attr in class_attrs:
+                rating_attr = attr
         # TeamRating role: the class constructed in _calculate_team_ratings
         ctr = model.lookup("_calculate_team_ratings")
         team_cls = None
-        if ctr is not None:
-            for n in ast.walk(ctr.node):
-                if isinstance(n, ast.Call) and isinstance(n.func, (ast.Name, ast.Attribute)):
-                    r = self.resolve_expr(ctr.module, n.func)
-                    if r and r[0] == "class" and r[1] is not rating_cls:
-                        team_cls = r[1]
-        if team_cls is None:
-            raise AnalysisError(f"vanished anchor: cannot discover the TeamRating role of {model.fq}")
+        if ctr is not None and rating_cls is not None:
+            for c, _ in constructed(ctr):
+                if c is not rating_cls:
+                    team_cls = c
+        if rating_cls is None or team_cls is None:
+            # the syntactic patterns do not apply (e.g. the class is looked up dynamically): evaluate the model abstractly
+            from .ai.discover import discover_semantic
+
+            rating_cls, team_cls, rating_attr = discover_semantic(self, model, rating_cls, team_cls, rating_attr)
         # default gamma
         gamma_default = None
         a = init.node.args
